@@ -37,6 +37,8 @@ type c06ChildOut struct {
 	End        string `json:"end"`
 	IsPanicErr bool   `json:"is_panic_err"` // the error is an interp.Panic
 	ValueType  string `json:"value_type"`   // dynamic type of Panic.Value
+	Wraps      int    `json:"wraps"`        // number of reflect.Value layers around the carried value
+	VKind      string `json:"vkind"`        // int | str | err | fault | other: the carried value itself
 	// variant B on ONE interpreter: Eval(defs); Eval("Main()"); Eval("Probe()")
 	DefsErr string `json:"defs_err"`
 	Stdout2 string `json:"stdout2"`
@@ -63,19 +65,66 @@ func (o c06ChildOut) contractViolation() string {
 	return ""
 }
 
-func c06YaegiEnd(err error) (end string, isPanic bool, vtype string) {
+type c06EndInfo struct {
+	isPanic bool
+	vtype   string
+	wraps   int
+	vkind   string
+}
+
+func c06YaegiEnd(err error) (end string, info c06EndInfo) {
 	if err == nil {
-		return "ok", false, ""
+		return "ok", info
 	}
 	var p interp.Panic
 	if errors.As(err, &p) {
+		info.isPanic = true
+		info.vtype = fmt.Sprintf("%T", p.Value)
+		info.wraps, info.vkind = c06Carrier(p.Value)
 		// the text a host sees through the error interface (fmt.Sprint of the carried value)
-		return "panic:" + classifyPanic(strings.TrimPrefix(p.Error(), "runtime error: ")), true, fmt.Sprintf("%T", p.Value)
+		return "panic:" + classifyPanic(strings.TrimPrefix(p.Error(), "runtime error: ")), info
 	}
 	if errors.Is(err, context.DeadlineExceeded) || errors.Is(err, context.Canceled) {
-		return "timeout", false, ""
+		return "timeout", info
 	}
-	return "compile-error:" + firstLine(err.Error()), false, ""
+	return "compile-error:" + firstLine(err.Error()), info
+}
+
+// c06Carrier looks at Panic.Value itself: how many reflect.Value layers, and what is inside.
+func c06Carrier(v interface{}) (wraps int, kind string) {
+	for wraps < 16 {
+		rv, ok := v.(reflect.Value)
+		if !ok {
+			break
+		}
+		if !rv.IsValid() || !rv.CanInterface() {
+			return wraps, "other"
+		}
+		wraps++
+		v = rv.Interface()
+	}
+	isFault := func(msg string) bool {
+		return !strings.HasPrefix(classifyPanic(strings.TrimPrefix(msg, "runtime error: ")), "value:")
+	}
+	switch x := v.(type) {
+	case int:
+		return wraps, "int"
+	case string:
+		if isFault(x) {
+			return wraps, "fault"
+		}
+		if c06StrRe.MatchString(x) {
+			return wraps, "str"
+		}
+	case error:
+		if isFault(x.Error()) {
+			return wraps, "fault"
+		}
+		if c06ErrRe.MatchString(x.Error()) {
+			return wraps, "err"
+		}
+	}
+	return wraps, "other"
 }
 
 type c06EvalRes struct {
@@ -84,7 +133,7 @@ type c06EvalRes struct {
 }
 
 // c06Eval evaluates src on i with a timeout; a host panic on the evaluating goroutine is caught.
-func c06Eval(i *interp.Interpreter, src string, timeout time.Duration) (res c06EvalRes, end string, isPanic bool, vtype string) {
+func c06Eval(i *interp.Interpreter, src string, timeout time.Duration) (res c06EvalRes, end string, info c06EndInfo) {
 	done := make(chan c06EvalRes, 1)
 	crash := make(chan string, 1)
 	go func() {
@@ -100,12 +149,12 @@ func c06Eval(i *interp.Interpreter, src string, timeout time.Duration) (res c06E
 	}()
 	select {
 	case r := <-done:
-		end, isPanic, vtype = c06YaegiEnd(r.err)
-		return r, end, isPanic, vtype
+		end, info = c06YaegiEnd(r.err)
+		return r, end, info
 	case m := <-crash:
-		return res, "host-crash:" + firstLine(m), false, ""
+		return res, "host-crash:" + firstLine(m), info
 	case <-time.After(timeout + 2*time.Second):
-		return res, "timeout", false, ""
+		return res, "timeout", info
 	}
 }
 
@@ -118,7 +167,9 @@ func c06RunOne(in c06ChildIn, timeout time.Duration) c06ChildOut {
 			o.End = "host-crash:use:" + err.Error()
 			return o
 		}
-		_, o.End, o.IsPanicErr, o.ValueType = c06Eval(i, in.Src, timeout)
+		var info c06EndInfo
+		_, o.End, info = c06Eval(i, in.Src, timeout)
+		o.IsPanicErr, o.ValueType, o.Wraps, o.VKind = info.isPanic, info.vtype, info.wraps, info.vkind
 		o.Stdout = stdout.String()
 	}
 	if o.End == "timeout" || strings.HasPrefix(o.End, "host-crash") || strings.HasPrefix(o.End, "compile-error") {
@@ -128,17 +179,21 @@ func c06RunOne(in c06ChildIn, timeout time.Duration) c06ChildOut {
 	var stdout, stderr bytes.Buffer
 	i := interp.New(interp.Options{Stdout: &stdout, Stderr: &stderr})
 	i.Use(stdlib.Symbols)
-	if r, end, _, _ := c06Eval(i, in.Defs, timeout); r.err != nil || end != "ok" {
+	if r, end, _ := c06Eval(i, in.Defs, timeout); r.err != nil || end != "ok" {
 		o.DefsErr = end
 		return o
 	}
-	_, o.End2, _, _ = c06Eval(i, "Main()", timeout)
+	var info2 c06EndInfo
+	_, o.End2, info2 = c06Eval(i, "Main()", timeout)
 	o.Stdout2 = stdout.String()
+	if info2.isPanic && (info2.wraps != o.Wraps || info2.vkind != o.VKind) {
+		o.End2 += fmt.Sprintf(" [carried value differs: %d %s]", info2.wraps, info2.vkind)
+	}
 	if o.End2 == "timeout" {
 		o.Probe = "skipped"
 		return o
 	}
-	r, end, _, _ := c06Eval(i, "Probe()", timeout)
+	r, end, _ := c06Eval(i, "Probe()", timeout)
 	switch {
 	case end != "ok":
 		o.Probe = end
